@@ -16,7 +16,10 @@ _T = "sound structural necessary conditions of the property, decided exhaustivel
      "analysed through its wrappers, once per way of passing the arguments (DECOR.slots / .signature / .state / .cache-key); " \
      "monkeypatched or rebound names, class decorators and stateful decorators make the check inconclusive, never silent. " \
      "Every function a check analyses is also searched for silent Python / numpy traps (TRAP.*: np.all of a generator, a None-returning " \
-     "method assigned, `is` against a literal, np.max of two arrays). "
+     "method assigned, `is` against a literal, np.max of two arrays). " \
+     "A rule reports a violation only for a deviation it reads; a construct in a form it does not read, and any failed form rule in a function " \
+     "that was restructured since the rule instances were confirmed (new helpers, five or more rewritten statements: sverif/shape.py), " \
+     "is reported as ANALYSIS-ERROR (exit 2), never as VIOLATION and never as a pass. "
 
 CLAIMS = {
     "C01": dict(
